@@ -42,6 +42,21 @@ def fiberLinRow (wConv kappa fs alpha beta2 beta3 L : R) (xs : List (Cx R)) : Li
   applyH (fiberH wConv (wAxis xs.length fs) (alpha / kappa) beta2 beta3 L) xs
 end
 
+/-! ### whole containers -/
+
+section
+variable {R : Type} [Add R] [Sub R] [Mul R] [Div R] [Neg R] [NatCast R] [IntCast R] [Transc R]
+
+/-- `DM` on a container: `(input('w') * H)('t')` — the `*` operator scales only `.signal` (C01), so every signal row
+    goes through `ifft(fft(·)·H)` while every noise row only makes the round trip `ifft(fft(·))` -/
+def dmPayload (dConv fs D : R) (p : Payload R) : Payload R :=
+  ⟨p.sig.map (dmRow dConv fs D), p.noise.map (List.map (fun r => idft (dft r)))⟩
+
+/-- `FIBER` with gamma = 0 on a container: `optical_signal(A, input.noise)` — the noise is handed over untouched -/
+def fiberLinPayload (wConv kappa fs alpha beta2 beta3 L : R) (p : Payload R) : Payload R :=
+  ⟨p.sig.map (fiberLinRow wConv kappa fs alpha beta2 beta3 L), p.noise⟩
+end
+
 /-! ### line protocol -/
 open Wire
 
